@@ -395,7 +395,13 @@ def execute(history, oracle=True, shared=None):
 _memo = {}
 
 
+def nh(history):
+    """histories may name catalogue entries (corpus files) or index them"""
+    return [INDEX[x] if isinstance(x, str) else int(x) for x in history]
+
+
 def executed(history):
+    history = nh(history)
     k = tuple(history)
     if k not in _memo:
         if len(_memo) > 4000:
@@ -480,7 +486,7 @@ _mmemo = {}
 
 
 def model_case(m, a):
-    history, pos = a
+    history, pos = nh(a[0]), a[1]
     k = tuple(history)
     if k not in _mmemo:
         if len(_mmemo) > 4000:
@@ -497,7 +503,7 @@ def impl_case(a):
 
 
 def direct_case(a):
-    history, pos = a
+    history, pos = nh(a[0]), a[1]
     res, fresh, muts = executed(history)
     op = CATALOGUE[history[pos]]
     if muts:
@@ -635,7 +641,7 @@ def f6_cached_private_after_convert(fn, args, record):
        CardanoByronLegacy.GetPrivateKey(), GetAddress() (hardened path) after ConvertToPublic() on the same object"""
     if fn != "call_in_history" or record.get("kind") != "direct" or "fresh object in the same state" not in record.get("what", ""):
         return False
-    return _stale_kind(args[0], args[1]) == "F6"
+    return _stale_kind(nh(args[0]), args[1]) == "F6"
 
 
 def f14_cached_address_across_toggle(fn, args, record):
@@ -643,7 +649,7 @@ def f14_cached_address_across_toggle(fn, args, record):
        legacy / deprecated address toggle"""
     if fn != "call_in_history" or record.get("kind") != "direct" or "fresh object in the same state" not in record.get("what", ""):
         return False
-    return _stale_kind(args[0], args[1]) == "F14"
+    return _stale_kind(nh(args[0]), args[1]) == "F14"
 
 
 def f6_cached_private_after_convert_replay():
